@@ -372,7 +372,7 @@ type RejectCase struct {
 
 var specC14Reject = Register(&Spec[RejectCase]{
 	Prop: "C14", Name: "reject",
-	Rule: "well-formed packages (stored or gzip members) changed in exactly one way: debian-binary content '1.0\\n', '3.0\\n', '0.939000\\n', '4.2\\n', '10.0\\n' (major version not 2), or the debian-binary, control.* or data.* member left out. Oracle: Load returns an error and no *Deb. Every case is non-trivial; distinct by archive bytes.",
+	Rule: "well-formed packages (stored or gzip members) changed in exactly one way: debian-binary content '1.0\\n', '3.0\\n', '0.939000\\n', '4.2\\n', '10.0\\n', '22.0\\n', '.0\\n' or a random major other than 2 (0..300) with a random minor, or the debian-binary, control.* or data.* member left out. Oracle: Load returns an error and no *Deb. Every case is non-trivial; distinct by archive bytes.",
 	Check: func(c RejectCase, r *Recorder) error {
 		raw, _, err := buildDeb(c.M)
 		if err != nil {
@@ -402,7 +402,15 @@ func TestC14_Reject(t *testing.T) {
 		class := rapid.SampledFrom([]string{"version", "version", "no-debian-binary", "no-control", "no-data"}).Draw(t, "class")
 		switch class {
 		case "version":
-			m.DebianBinary = rapid.SampledFrom([]string{"1.0\n", "3.0\n", "0.939000\n", "4.2\n", "10.0\n", "20.0\n", "0.2\n"}).Draw(t, "ver")
+			if rapid.Bool().Draw(t, "listed") {
+				m.DebianBinary = rapid.SampledFrom([]string{"1.0\n", "3.0\n", "0.939000\n", "4.2\n", "10.0\n", "20.0\n", "0.2\n", "22.0\n", "222.1\n", "12.0\n", "21.0\n", ".0\n", "..5\n", "-2.0\n"}).Draw(t, "ver")
+			} else {
+				major := rapid.IntRange(0, 300).Draw(t, "major")
+				if major == 2 {
+					major = 22
+				}
+				m.DebianBinary = itoa(major) + "." + itoa(rapid.IntRange(0, 30).Draw(t, "minor")) + "\n"
+			}
 		case "no-debian-binary":
 			m.Omit = "debian-binary"
 		case "no-control":
